@@ -69,7 +69,135 @@ JudgeF2(r) ==
        \cup C(r.n > 10 \/ (r.ns.ok = 1 /\ RowSpace(r.ns.rows) = Kernel(r.A, r.n)), "kernel-exact")
        \cup C(r.unchanged = 1, "args-mutated")
 
+(***************************************************************************)
+(* Graph codec and mutators (C19): one record = one transition of the      *)
+(* graph machine replayed into the Graph class.                            *)
+(*   src, kind (lc | toggle | swap), a, b: the transition                  *)
+(*   srcrows: adjacency rows of Graph.decompress(n, src); srcid: its       *)
+(*   compress(); rows / id: adjacency rows / compress() after the mutation *)
+(***************************************************************************)
+JudgeGraphOp(r) ==
+   LET exp == CASE r.kind = "lc" -> LC(r.n, r.src, r.a)
+                [] r.kind = "toggle" -> Toggle(r.n, r.src, r.a, r.b)
+                [] r.kind = "swap" -> SwapV(r.n, r.src, r.a, r.b)
+                [] OTHER -> r.src
+   IN  C(r.srcrows = Rows(r.n, r.src), "decompress")
+       \cup C(r.srcid = r.src, "compress")
+       \cup C(r.rows = Rows(r.n, exp), r.kind)
+       \cup C(r.id = exp, "compress-after")
+       \cup C(\A v \in 1..r.n : Bit(r.rows[v], v - 1) = 0, "simple")
+       \cup C(\A u \in 1..r.n : \A v \in 1..r.n : Bit(r.rows[u], v - 1) = Bit(r.rows[v], u - 1), "simple")
+       \cup C(r.kind # "lc" \/ r.twice = r.src, "involution")
+       \cup C(r.kind # "lc" \/ r.id2 = exp, "lc-copy")
+
+(***************************************************************************)
+(* Grouping codecs of linear_index (C19).  A grouping of shape `sizes` is  *)
+(* a partition of 0..n-1 into blocks with that multiset of sizes (for the  *)
+(* type with ordered singles additionally an order of its two singletons). *)
+(* images[i+1] = blocks of to_X(i); back[i+1] = from_X(to_X(i));           *)
+(* perm[i+1] = from_X of the same grouping with its blocks listed in other *)
+(* orders; singles[i+1] = the singleton blocks in the order to_X lists them*)
+(***************************************************************************)
+BlockSet(bs) == {{b[k] : k \in 1..Len(b)} : b \in {bs[i] : i \in 1..Len(bs)}}
+IsPartition(P, n) == /\ UNION P = 0..(n - 1)
+                     /\ \A X \in P : \A Y \in P : X # Y => X \cap Y = {}
+                     /\ {} \notin P
+SizesOf(bs) == [k \in 1..6 |-> Cardinality({i \in 1..Len(bs) : Len(bs[i]) = k})]
+Fact(k) == CASE k = 0 -> 1 [] k = 1 -> 1 [] k = 2 -> 2 [] k = 3 -> 6 [] k = 4 -> 24 [] k = 5 -> 120 [] k = 6 -> 720
+RECURSIVE ProdSizes(_, _)
+ProdSizes(sz, k) == IF k > 6 THEN 1 ELSE (Fact(k) ^ sz[k]) * Fact(sz[k]) * ProdSizes(sz, k + 1)
+(* number of set partitions of n elements with sz[k] blocks of size k *)
+NumPartitions(n, sz) == Fact(n) \div ProdSizes(sz, 1)
+JudgeGrouping(r) ==
+   LET cnt == Len(r.images)
+       parts == [i \in 1..cnt |-> BlockSet(r.images[i])]
+       tagged == [i \in 1..cnt |-> IF r.ordered = 1 THEN <<parts[i], r.singles[i]>> ELSE <<parts[i], <<>>>>]
+   IN  C(cnt = r.count, "count")
+       \cup C(r.count = NumPartitions(r.n, r.sizes) * (IF r.ordered = 1 THEN 2 ELSE 1), "count")
+       \cup C(\A i \in 1..cnt : IsPartition(parts[i], r.n) /\ SizesOf(r.images[i]) = r.sizes
+                                  /\ (\A b \in 1..Len(r.images[i]) : Cardinality({r.images[i][b][k] : k \in 1..Len(r.images[i][b])}) = Len(r.images[i][b])), "shape")
+       \cup C(Cardinality({tagged[i] : i \in 1..cnt}) = cnt, "injective")
+       \cup C(\A i \in 1..cnt : r.back[i] = i - 1, "roundtrip")
+       \cup C(\A i \in 1..cnt : \A k \in 1..Len(r.perm[i]) : r.perm[i][k] = i - 1, "block-order")
+(* class ids: _start_indices consistent with the combinatorics counts; every id decodes and re-encodes to itself *)
+JudgeStartIdx(r) ==
+   C(r.starts[1] = 0 /\ r.starts[Len(r.starts)] = NumClasses(r.n), "start-indices")
+   \cup C(Len(r.starts) = Len(r.counts) + 1 /\ \A k \in 1..Len(r.counts) : r.starts[k + 1] - r.starts[k] = r.counts[k], "start-indices")
+   \cup C(Len(r.reids) = NumClasses(r.n) /\ \A i \in 1..Len(r.reids) : r.reids[i] = i - 1, "reid")
+   \cup C(\A i \in 1..Len(r.types) : i < Len(r.types) => r.types[i] <= r.types[i + 1], "start-indices")
+
+(***************************************************************************)
+(* Input formats (C14).  obj = the object the constructor built, read back *)
+(* through its public attributes R, S, phases.                             *)
+(***************************************************************************)
+ZeroVec(n) == [i \in 1..n |-> 0]
+JudgeDenote(r) ==
+   LET obj == FromMatrices(r.R, r.S, r.ph)
+       n == r.n
+   IN  C(Len(r.R) = n /\ Len(r.S) = n /\ Len(r.ph) = n, "shape")
+       \cup (CASE r.fmt = "strings" ->
+                   C(n = NumQubitsOfChars(r.strs[1]) /\ Len(r.strs) = n /\ \A j \in 1..n : obj[j] = FromChars(r.strs[j]), "denote-strings")
+               [] r.fmt = "matrices" ->
+                   C(obj = FromMatrices(r.Rin, r.Sin, IF r.hasph = 1 THEN r.phin ELSE ZeroVec(n)), "denote-matrices")
+               [] r.fmt = "graph" -> C(obj = GraphGens(n, r.g), "denote-graph")
+               [] r.fmt = "circuit" ->
+                   C(ValidStabilizer(n, obj) /\ SignedSpan(obj) = SignedSpan(ApplySeqTab(r.program, [i \in 1..n |-> ZOn(i - 1)])), "denote-circuit")
+               [] OTHER -> {"unknown-format"})
+       \cup C(Len(r.tolist) = n /\ \A j \in 1..n : r.tolist[j] = ToChars(obj[j], n), "to-list")
+       \cup C(Len(r.tolistq) = n /\ \A j \in 1..n : r.tolistq[j] = ToCharsMirrored(obj[j], n), "mirror")
+       \cup C(FromMatrices(r.R2, r.S2, r.ph2) = obj, "roundtrip")
+       \cup C(r.unchanged = 1, "args-mutated")
+
+(***************************************************************************)
+(* Group predicates (C15) on valid stabilizers a, b.                       *)
+(***************************************************************************)
+RECURSIVE ColMaskM(_, _, _)
+ColMaskM(M, j, q) == IF q > Len(M) THEN 0 ELSE (M[q][j] % 2) * P2(q - 1) + ColMaskM(M, j, q + 1)
+JudgePred(r) ==
+   IF ~(ValidStabilizer(r.n, r.a) /\ ValidStabilizer(r.n, r.b)) THEN {"bad-input"} ELSE
+   LET G == Span(r.a)
+       ncols == IF Len(r.expX) = 0 THEN 0 ELSE Len(r.expX[1])
+       cols == [i \in 1..ncols |-> Mk(ColMaskM(r.expX, i, 1), ColMaskM(r.expZ, i, 1), 0)]
+   IN  C((r.equiv = 1) = (G = Span(r.b)), "equivalent")
+       \cup C(ncols = P2(r.n) /\ {cols[i] : i \in 1..ncols} = G, "expand")
+       \cup C(Len(r.ent) = r.n /\ \A q \in 0..(r.n - 1) : (r.ent[q + 1] = 1) = ~(\E p \in G : Supp(p) = P2(q)), "entangled")
+
+(***************************************************************************)
+(* Local-Clifford layer search (C16).  P: m sign-free Paulis on n qubits,  *)
+(* g: graph id; res: "none" | "layer" | "raise"; blocks: one 2x2 block per *)
+(* qubit of the returned layer; gates: local_clifford_layer_to_circuit.    *)
+(* A layer L is sound when it maps every operator into the graph group.    *)
+(***************************************************************************)
+ApplyBlocks(blocks, p) ==
+   LET RECURSIVE Go(_, _)
+       Go(q, acc) == IF q > Len(blocks) THEN acc ELSE Go(q + 1, ApplyBlock(blocks[q], q - 1, acc))
+   IN  Go(1, Body(p))
+SoundLayer(blocks, P, GG) == \A i \in 1..Len(P) : ApplyBlocks(blocks, P[i]) \in GG
+AllLayers(n) == [1..n -> InvertibleBlocks]
+LayerExists(n, P, GG, full) ==
+   IF full THEN KeyOfGens(P) = ClassKey(GG)          \* full stabilizers: a layer exists iff same class (LCGroups)
+   ELSE \E L \in AllLayers(n) : SoundLayer(L, P, GG)
+JudgeLayer(r) ==
+   LET GG == Span(GraphGens(r.n, r.g))
+       full == Len(r.P) = r.n /\ ValidStabilizer(r.n, r.P)
+       ex == LayerExists(r.n, r.P, GG, full /\ r.n >= 5)
+   IN  CASE r.res = "raise" -> {"raised"}
+         [] r.res = "none" -> C(~ex, "missed")
+         [] r.res = "layer" ->
+              C(r.offdiag = 0 /\ Len(r.blocks) = r.n /\ \A q \in 1..r.n : r.blocks[q] \in InvertibleBlocks, "not-clifford")
+              \cup C(r.offdiag = 0 /\ Len(r.blocks) = r.n /\ SoundLayer(r.blocks, r.P, GG), "unsound")
+              \cup C(r.circ = 1 /\ (\A i \in 1..Len(r.gates) : WellFormed(r.gates[i], r.n) /\ ~IsTwo(r.gates[i]))
+                      /\ \A q \in 0..(r.n - 1) : /\ Body(ApplySeq(r.gates, XOn(q))) = ApplyBlocks(r.blocks, XOn(q))
+                                                   /\ Body(ApplySeq(r.gates, ZOn(q))) = ApplyBlocks(r.blocks, ZOn(q)), "circuit")
+         [] OTHER -> {"unknown-result"}
+
 Judge(r) == CASE r.op = "classify" -> JudgeClassify(r)
+              [] r.op = "denote" -> JudgeDenote(r)
+              [] r.op = "pred" -> JudgePred(r)
+              [] r.op = "layer" -> JudgeLayer(r)
+              [] r.op = "graphop" -> JudgeGraphOp(r)
+              [] r.op = "grouping" -> JudgeGrouping(r)
+              [] r.op = "startidx" -> JudgeStartIdx(r)
               [] r.op = "f2" -> JudgeF2(r)
               [] r.op = "conn_graph" -> JudgeConnGraph(r)
               [] r.op = "mubfam" -> JudgeMubFam(r)
